@@ -314,6 +314,7 @@ BaseMergeShape(G, ps, accept) ==
   Len(ps) >= 2 /\ LET cs == RecMergeCommits(G.par, ps)
                   IN FileTermsCancelLeavingTrees(Flatten([i \in 1..Len(cs) |-> CommitTree(G, cs[i], accept)]), accept)
 RebaseMergeShape(G, c, newPs, accept) ==
+  \/ \E k \in DOMAIN G.par : G.auto[k] /\ BaseMergeShape(G, G.par[k], accept)      \* while building an auto-merged commit
   \/ BaseMergeShape(G, G.par[c], accept) \/ BaseMergeShape(G, newPs, accept)
   \/ FileTermsCancelLeavingTrees(
         Flatten(<<ParentsTree(G, newPs, accept), ParentsTree(G, G.par[c], accept), CommitTree(G, c, accept)>>), accept)
